@@ -22,6 +22,7 @@ type composer struct {
 	skipBuf    *rjson.Buffer // a long-lived Buffer used only for skipping, kept across documents (it has seen hostile ones)
 	keyBuf     *[]byte       // a long-lived scratch for field names, the `buf, _, err = Unescape(name, buf[:0])` idiom
 	strBuf     []byte
+	arena      []byte // every string value appended here when the decoder works arena style
 	used       map[string]int
 	maxDepth   int
 }
@@ -138,6 +139,22 @@ func (cp *composer) value(data []byte, depth int, inHandler bool) (val interface
 			s, pp, e := rjson.ReadString(data, &cp.strBuf)
 			return s, pp, e
 		case 2:
+			if cp.r.Intn(2) == 0 {
+				// arena style: every string of the document is APPENDED to one destination and the
+				// decoder keeps spans (seeded change C08r8-m2: the shared slow path started from
+				// buf[:0], which is right for ReadString's scratch and wrong for the append contract)
+				cp.use("ReadStringBytes(appending to an arena)")
+				start := len(cp.arena)
+				b, pp, e := rjson.ReadStringBytes(rest, cp.arena)
+				if e != nil {
+					return nil, p0 + pp, e
+				}
+				if len(b) < start {
+					return nil, p0 + pp, errors.New("composer: ReadStringBytes returned fewer bytes than the destination held")
+				}
+				cp.arena = b
+				return string(b[start:]), p0 + pp, nil
+			}
 			cp.use("ReadStringBytes")
 			var b []byte
 			b, pp, e := rjson.ReadStringBytes(rest, cp.strBuf[:0])
